@@ -1157,7 +1157,7 @@ func main() {
 	}
 	nwild := 0
 	if focus == "C05" {
-		nwild = r.N(48, 480)
+		nwild = r.N(72, 720)
 	}
 	vh.Parallel(nwild, 16, func(i int) { wildListing(r, i) })
 	nbig := 0
